@@ -784,7 +784,11 @@ spif_dlinked_list_insert(spif_dlinked_list_t self, spif_obj_t obj)
              current = current->next);
         item->next = current->next;
         item->prev = current;
-        current->next->prev = item;
+        if (current->next) {
+            current->next->prev = item;
+        } else {
+            self->tail = item;
+        }
         current->next = item;
     }
     self->len++;
